@@ -91,6 +91,10 @@ class _Compiler:
                         self.emitter.append(f"case {' | '.join(f'0b0{pattern}' for pattern in patterns)}:")
                     with self.emitter.indent():
                         case_handler(*case)
+                    if patterns is None:
+                        # Python rejects `case _:` followed by further cases; they can never
+                        # be active anyway.
+                        break
         else:
             for index, case in enumerate(cases):
                 patterns = case[0]
